@@ -1,6 +1,7 @@
 """C02 - OFDM round trip and exact one-tap equalisation when the CP covers the channel.
 
-E1 (exhaustive product enumeration on the real implementation):
+E1 (exhaustive product enumeration on the real implementation) + E3 (BFS over
+short operation histories of ONE reused OFDM / equaliser / channel object):
 
 Part P (parameters): every triple (fft, cp, used) of a small integer grid that
   also contains all the *invalid* neighbours (negative / too large cp, odd /
@@ -8,14 +9,18 @@ Part P (parameters): every triple (fft, cp, used) of a small integer grid that
   constructor and through `set_parameters`: valid <=> accepted with the
   attributes stored; invalid <=> ValueError.
 Part R (round trip): every valid (fft, cp, used) of the tier x the six input
-  lengths {1, used-1, used, used+1, 2 used, 2 used+3}:
+  lengths {1, used-1, used, used+1, 2 used, 2 used+3} x six input forms
+  (contiguous complex128, strided view, negative-stride view, complex64,
+  int64, float64; the received signal is presented in the same layout):
   (1) demodulate(modulate(x)) == x ++ zeros, length ceil(n/used)*used;
   (2) len(tx) == nsym*(fft+cp); (3) every prefix equal, sample by sample, to
   the tail of its symbol; (4) used < fft: an O(N^2) reference DFT (matrix of
   exp(-2 pi j (k m mod N)/N), no FFT) of every symbol body has no energy at
-  bin 0 and at the guard bins.
+  bin 0 and at the guard bins; inputs are not modified; a second call with the
+  SAME array object whose content the caller changed in place uses the new
+  content and earlier results are not changed by it.
 Part C (channel): every valid (fft, cp, used) x tap-delay sets inside {0..cp}
-  (1..3 taps) x tap powers from {0,-3,-10} dB x 3 seeded time-invariant
+  (1..3 taps) x tap powers from {0,-3,-10} dB x seeded time-invariant
   realisations (real TdlChannel driven by JakesSampleGenerator(Fd=0, Ts=1,
   RS=RandomState(recorded seed))) x input lengths {used+1, 2 used+3} (thorough,
   full alphabet: also 1):
@@ -24,41 +29,54 @@ Part C (channel): every valid (fft, cp, used) x tap-delay sets inside {0..cp}
       check derives from the *reported* taps by a direct sum, aliasing
       included); realisations with min|H_k| < 1e-3 on a used bin are excluded
       and counted.
+Part H (histories, BFS): ONE OFDM object with an OfdmOneTapEqualizer bound to it
+  at creation and ONE TdlChannel; events = set_parameters(valid triple) /
+  set_parameters(invalid) / attribute assignments that keep the triple valid /
+  reads (get_used_subcarrier_indexes, modulate, demodulate) / a transmission
+  through the reused channel.  After EVERY event: all Part-R relations for the
+  CURRENT parameters on the live object, bit-exact differential against a fresh
+  object, equalisation through the reused channel with the bound equaliser, and
+  get_freq_response of the previously reported impulse-response object at
+  several fft sizes against the direct sum.
 """
 import itertools
 import math
 
 import numpy as np
 
-from vmc import common, numerics
+from vmc import bfs, common, numerics
 from vmc.parallel import run_shards, shard
-from vmc.report import Check
+from vmc.report import Broken, Check
 
 PID = "C02"
 LEVEL = "exploration"
-ENGINE = "E1 exhaustive product enumerator"
+ENGINE = "E1 exhaustive product enumerator + E3 BFS over reuse histories of one OFDM/equaliser/channel object"
 RULE = ("P: every (fft, cp, used) of the integer grid fft in -1..Fp, cp in -2..fft+2, used in "
         "{None} U -2..fft+2, via constructor and via set_parameters (valid <=> accepted, invalid "
         "<=> ValueError). R: every valid (fft, cp in 0..fft, even used in 2..fft) of the tier x "
-        "input lengths {1, used-1, used, used+1, 2used, 2used+3}, symbols x_k=(1+k/8)e^{j(0.7k+c)}: "
-        "round trip, output length, prefix==tail sample by sample, O(N^2)-DFT energy on DC/guard bins. "
-        "C: the same configurations x tap-delay sets of 1..3 taps inside {0..cp} (ALL such subsets for "
+        "input lengths {1, used-1, used, used+1, 2used, 2used+3} x input forms {complex128, strided, "
+        "reversed view, complex64, int64, float64}, symbols x_k=(1+k/8)e^{j(0.7k+c)} (k+1 resp. 1+k/8 "
+        "for the real forms): round trip, output length, prefix==tail sample by sample, O(N^2)-DFT "
+        "energy on DC/guard bins, inputs unmodified, in-place re-use of the argument array. "
+        "C: configurations x tap-delay sets of 1..3 taps inside {0..cp} (ALL such subsets for "
         "fft <= F_full, otherwise all subsets of the boundary delays {0,1,cp//2,cp-1,cp}) x tap powers "
         "from {0,-3,-10} dB (all tuples up to a common shift for fft <= F_full, 1/4/4 tuples otherwise) "
-        "x 3 seeded static realisations x input lengths {used+1, 2used+3} (thorough, fft <= F_full: also 1): "
+        "x seeded static realisations x input lengths {used+1, 2used+3} (thorough, fft <= F_full: also 1): "
         "equalised demodulated data == input ++ zeros. "
-        "Non-trivial: R with n > 1; C with a tap at non-zero delay. Distinct = distinct "
-        "(fft, cp, used, n) resp. (fft, cp, used, delay set)")
+        "H: every event sequence up to the depth bound on one object (states merged by whole-object "
+        "digest only beyond depth 1), all relations after every event. "
+        "Non-trivial: R with n > 1; C with a tap at non-zero delay; H with >= 1 event. Distinct = distinct "
+        "(fft, cp, used, n, form) resp. (fft, cp, used, delay set) resp. history")
 
 # ---- tolerance constants (DESIGN 2.4: |lhs-rhs| <= c * 2^-52 * kappa * scale) ----------
-C_RT = 1e4        # round trip, kappa = 1
+C_RT = 1e4        # round trip, kappa = 1 (kappa = 2^29 when the received signal is complex64)
 C_DFT = 1e2       # reference-DFT energy test, kappa = N (O(N^2) summation)
 C_EQ = 1e4        # equalised symbols, kappa = max(1, max|H|) / min|H| on the used bins
 NULL_THR = 1e-3   # realisations with min|H_k| below this on a used bin are excluded (counted)
 POWERS_DB = (0.0, -3.0, -10.0)
-NREAL = 3
 JAKES_L = 8
 PREPASS_MAX_FFT = 4   # these configurations run serially in the parent first -> smallest witnesses
+FORMS = ("c128", "strided", "reversed", "c64", "int64", "float64")
 
 
 # ----------------------------------------------------------------------
@@ -69,10 +87,12 @@ def tier_params(tier):
         return dict(F_all=24, F_full=10, Fp=26,
                     big=[(fft, cp, used) for fft in (32, 64, 128) for cp in range(fft + 1)
                          for used in sorted({2, fft // 2, fft - 2, fft})] + [(64, 16, 52)],
-                    ch_lengths_full="three", ch_lengths_boundary="two")
-    return dict(F_all=8, F_full=8, Fp=10,
+                    ch_lengths_full="three", ch_lengths_boundary="two",
+                    nreal_full=3, nreal_boundary=3, ch_used_16=None, hist_depth=4)
+    return dict(F_all=8, F_full=6, Fp=10,
                 big=[(16, cp, used) for cp in range(17) for used in range(2, 17, 2)] + [(64, 16, 52)],
-                ch_lengths_full="two", ch_lengths_boundary="two")
+                ch_lengths_full="two", ch_lengths_boundary="two",
+                nreal_full=2, nreal_boundary=2, ch_used_16=(2, 8, 14, 16), hist_depth=3)
 
 
 def configs(tier):
@@ -89,6 +109,14 @@ def configs(tier):
             seen.add(c)
             out.append(c)
     return out
+
+
+def channel_configs(tier):
+    p = tier_params(tier)
+    for cfg in configs(tier):
+        if cfg[0] == 16 and p["ch_used_16"] is not None and cfg[2] not in p["ch_used_16"]:
+            continue
+        yield cfg
 
 
 def lengths(used):
@@ -132,14 +160,28 @@ def delay_sets(cp, full):
             yield c
 
 
+# histories: triples chosen so that consecutive ones share one or two of the three numbers
+H_TRIPLES = [(4, 1, 2), (8, 1, 2), (8, 1, 4), (4, 1, 4), (8, 3, 6), (6, 3, 2), (6, 0, 4), (16, 1, 2)]
+H_ATTRS = ([("fft_size", v) for v in (4, 6, 8, 16)] + [("cp_size", v) for v in (0, 1, 3)] +
+           [("num_used_subcarriers", v) for v in (2, 4, 6)])
+H_INVALID = (8, 9, 4)
+H_READS = ("idx", "mod", "demod", "tx")
+H_CH_DELAYS = (0, 1)
+H_CH_POWERS = (0.0, -3.0)
+H_ROOTS = (0, 2, 4, 6)          # BFS roots: (4,1,2) (8,1,4) (8,3,6) (6,0,4); all triples are set-events
+H_FREQ_SIZES = (8, 2, 16)
+
+
 def units(tier):
     """deterministic list of work units, simplest first"""
     p = tier_params(tier)
     for fft in range(-1, p["Fp"] + 1):
         yield ("par", fft)
+    for i in H_ROOTS:
+        yield ("hist", (0, 0, 0), i)
     for cfg in configs(tier):
         yield ("rt", cfg)
-    for cfg in configs(tier):
+    for cfg in channel_configs(tier):
         full = cfg[0] <= p["F_full"]
         for ds in delay_sets(cfg[1], full):
             yield ("ch", cfg, ds, full)
@@ -155,6 +197,34 @@ def rs_seed(seed, r):
 def syms(n, off):
     k = np.arange(n, dtype=float)
     return (1.0 + k / 8.0) * np.exp(1j * (0.7 * k + 2.0 * math.pi * off))
+
+
+def make_input(form, n, off):
+    """-> (array handed to the library, complex128 reference values)"""
+    if form == "int64":
+        x = np.arange(1, n + 1, dtype=np.int64)
+        return x, x.astype(complex)
+    if form == "float64":
+        x = 1.0 + np.arange(n, dtype=float) / 8.0
+        return x, x.astype(complex)
+    v = syms(n, off)
+    if form == "c64":
+        x = v.astype(np.complex64)
+        return x, x.astype(complex)
+    return layout(v, form), v.copy()
+
+
+def layout(v, form):
+    """the same values in the memory layout of `form`"""
+    if form == "strided":
+        big = np.zeros(2 * v.size + 1, dtype=v.dtype)
+        big[1::2] = v
+        return big[1::2]
+    if form == "reversed":
+        return v[::-1].copy()[::-1]
+    if form == "c64":
+        return v.astype(np.complex64)
+    return v.copy()
 
 
 _W = {}
@@ -197,6 +267,12 @@ def true_freq_response(idx, taps, N, bins, drop_beyond=None):
             continue
         H += h * np.exp(-2j * np.pi * ((kb * int(d)) % N) / N)
     return H
+
+
+def same_content(a, saved):
+    """argument array still holds the values it had (its shape may have been viewed differently)"""
+    a = np.asarray(a)
+    return a.dtype == saved.dtype and a.size == saved.size and np.array_equal(a.ravel(), saved.ravel())
 
 
 # ----------------------------------------------------------------------
@@ -247,98 +323,281 @@ def run_par_unit(chk, fft):
 
 
 # ----------------------------------------------------------------------
-# Part R
+# Part R relations (on a given, possibly reused, object)
 # ----------------------------------------------------------------------
+def roundtrip_relations(chk, case, o, triple, n, off, form="c128", ctx=()):
+    """relations (1)-(4) + argument hygiene for the parameters `triple` the object is
+    supposed to have.  Returns (tx, d) or None when a relation already failed fatally."""
+    fft, cp, used = triple
+    x, xref = make_input(form, n, off)
+    x0 = x.copy()
+    nsym = -(-n // used)
+    pad = nsym * used - n
+    xpad = np.concatenate([xref, np.zeros(pad, dtype=complex)])
+    tx = np.asarray(o.modulate(x))
+    if not same_content(x, x0) or x.shape != x0.shape:
+        chk.fail(ctx + ("modulate", "mutates_input"), case, observed=x, expected=x0)
+    # (2) length
+    if tx.shape != (nsym * (fft + cp),):
+        chk.fail(ctx + ("modulate", "output_length"), case, observed=tx.shape,
+                 expected=(nsym * (fft + cp),))
+        return None
+    if not np.all(np.isfinite(tx)):
+        chk.fail(ctx + ("modulate", "non_finite_output"), case, observed=tx[:8], expected="finite")
+        return None
+    T = tx.reshape(nsym, fft + cp)
+    # (3) prefix is an exact copy of the tail
+    if cp:
+        chk.count("n_prefix_samples", nsym * cp)
+        if not np.array_equal(T[:, :cp], T[:, fft:fft + cp]):
+            s = int(np.nonzero(np.any(T[:, :cp] != T[:, fft:fft + cp], axis=1))[0][0])
+            chk.fail(ctx + ("modulate", "prefix_not_copy_of_symbol_tail"), case,
+                     observed=T[s, :cp], expected=T[s, fft:fft + cp], msg="OFDM symbol %d" % s)
+    # (4) no energy on DC / guard bins
+    if used < fft:
+        X = ref_dft_rows(np.ascontiguousarray(T[:, cp:]))
+        ub = set(ref_used_bins(fft, used))
+        guard = [k for k in range(1, fft) if k not in ub]
+        sc = numerics.scale(X)
+        chk.count("n_unused_bins", nsym * (1 + len(guard)))
+        if not numerics.close(X[:, 0], np.zeros(nsym), kappa=fft, c=C_DFT, scale_=sc):
+            chk.fail(ctx + ("modulate", "energy_on_unused_subcarrier", "DC"), case,
+                     observed=float(np.max(np.abs(X[:, 0]))), expected="0 (scale %g)" % sc)
+        if guard and not numerics.close(X[:, guard], np.zeros((nsym, len(guard))),
+                                        kappa=fft, c=C_DFT, scale_=sc):
+            kbad = guard[int(np.argmax(np.max(np.abs(X[:, guard]), axis=0)))]
+            chk.fail(ctx + ("modulate", "energy_on_unused_subcarrier", "guard"), case,
+                     observed="bin %d: %g" % (kbad, float(np.max(np.abs(X[:, kbad])))),
+                     expected="0 (scale %g)" % sc)
+    # (1) round trip; the received signal comes in the layout of `form`
+    rx = layout(tx, form)
+    rx0 = rx.copy()
+    d = np.asarray(o.demodulate(rx))
+    if not same_content(rx, rx0):
+        chk.fail(ctx + ("demodulate", "mutates_input_values"), case, observed=np.asarray(rx).ravel()[:8],
+                 expected=rx0.ravel()[:8])
+    if d.shape != xpad.shape:
+        chk.fail(ctx + ("demodulate", "output_length"), case, observed=d.shape, expected=xpad.shape)
+        return None
+    kap = 2.0 ** 29 if form == "c64" else 1.0
+    if not numerics.close(d, xpad, kappa=kap, c=C_RT):
+        bad = np.abs(d - xpad)
+        bad[~np.isfinite(bad)] = np.inf
+        i = int(np.argmax(bad))
+        chk.fail(ctx + ("demodulate", "roundtrip_mismatch", "data" if i < n else "zero_padding"), case,
+                 observed="position %d: %r" % (i, complex(d[i])), expected=complex(xpad[i]))
+    return tx, d
+
+
+def aliasing_relations(chk, case, o, triple, n, off, ctx=()):
+    """the same argument array, modified in place by the caller between two calls, must be
+    read again; results returned earlier must not change"""
+    from pyphysim.modulators.ofdm import OFDM
+    fft, cp, used = triple
+    x = syms(n, off)
+    tx1 = np.asarray(o.modulate(x))
+    tx1c = tx1.copy()
+    x *= -1j
+    x[0] += 0.5
+    tx2 = np.asarray(o.modulate(x))
+    want = np.asarray(OFDM(fft, cp, used).modulate(x.copy()))
+    if tx2.shape != want.shape or not np.array_equal(tx2, want):
+        chk.fail(ctx + ("modulate", "stale_result_after_inplace_change_of_argument"), case,
+                 observed=tx2[:6], expected=want[:6])
+    if tx1.shape != tx1c.shape or not np.array_equal(tx1, tx1c):
+        chk.fail(ctx + ("modulate", "earlier_result_changed_by_later_call"), case,
+                 observed=tx1[:6], expected=tx1c[:6])
+    rx = tx2.copy()
+    d1 = np.asarray(o.demodulate(rx))
+    d1c = d1.copy()
+    rx *= 2.0
+    rx.ravel()[-1] += 1.0
+    d2 = np.asarray(o.demodulate(rx))
+    wantd = np.asarray(OFDM(fft, cp, used).demodulate(rx.copy()))
+    if d2.shape != wantd.shape or not np.array_equal(d2, wantd):
+        chk.fail(ctx + ("demodulate", "stale_result_after_inplace_change_of_argument"), case,
+                 observed=d2[:6], expected=wantd[:6])
+    if d1.shape != d1c.shape or not np.array_equal(d1, d1c):
+        chk.fail(ctx + ("demodulate", "earlier_result_changed_by_later_call"), case,
+                 observed=d1[:6], expected=d1c[:6])
+
+
 def check_roundtrip(chk, case):
     from pyphysim.modulators.ofdm import OFDM
     fft, cp, used, n, off = case["fft"], case["cp"], case["used"], case["n"], case["phase_offset"]
+    form = case.get("form", "c128")
     with chk.guard(("ofdm_roundtrip",), case):
         chk.count("eval_roundtrip")
-        x = syms(n, off)
-        x0 = x.copy()
         nsym = -(-n // used)
-        pad = nsym * used - n
-        xpad = np.concatenate([x0, np.zeros(pad, dtype=complex)])
         # enumeration-derived non-vacuity keys (recorded before the library is called)
         if n > 1:
-            chk.nontriv(("rt", fft, cp, used, n))
+            chk.nontriv(("rt", fft, cp, used, n, form))
         chk.outcome("nsym", nsym)
-        if pad:
+        chk.outcome("input_form", form)
+        if nsym * used - n:
             chk.outcome("padding_configs", (fft, cp, used, n))
         if cp in (0, fft):
             chk.outcome("cp_edge_configs", (fft, cp))
         if used < fft:
             chk.outcome("guard_bins", fft - 1 - used)
         o = OFDM(fft, cp, used)
-        tx = np.asarray(o.modulate(x))
-        if x.shape != x0.shape or not np.array_equal(x, x0):
-            chk.fail(("modulate", "mutates_input"), case, observed=x, expected=x0)
-        # (2) length
-        if tx.shape != (nsym * (fft + cp),):
-            chk.fail(("modulate", "output_length"), case, observed=tx.shape,
-                     expected=(nsym * (fft + cp),))
-            return
-        if not np.all(np.isfinite(tx)):
-            chk.fail(("modulate", "non_finite_output"), case, observed=tx[:8], expected="finite")
-            return
-        T = tx.reshape(nsym, fft + cp)
-        # (3) prefix is an exact copy of the tail
-        if cp:
-            chk.count("n_prefix_samples", nsym * cp)
-            if not np.array_equal(T[:, :cp], T[:, fft:fft + cp]):
-                s = int(np.nonzero(np.any(T[:, :cp] != T[:, fft:fft + cp], axis=1))[0][0])
-                chk.fail(("modulate", "prefix_not_copy_of_symbol_tail"), case,
-                         observed=T[s, :cp], expected=T[s, fft:fft + cp], msg="OFDM symbol %d" % s)
-        # (4) no energy on DC / guard bins
-        if used < fft:
-            X = ref_dft_rows(np.ascontiguousarray(T[:, cp:]))
-            ub = set(ref_used_bins(fft, used))
-            guard = [k for k in range(1, fft) if k not in ub]
-            sc = numerics.scale(X)
-            chk.count("n_unused_bins", nsym * (1 + len(guard)))
-            if not numerics.close(X[:, 0], np.zeros(nsym), kappa=fft, c=C_DFT, scale_=sc):
-                chk.fail(("modulate", "energy_on_unused_subcarrier", "DC"), case,
-                         observed=float(np.max(np.abs(X[:, 0]))), expected="0 (scale %g)" % sc)
-            if guard and not numerics.close(X[:, guard], np.zeros((nsym, len(guard))),
-                                            kappa=fft, c=C_DFT, scale_=sc):
-                kbad = guard[int(np.argmax(np.max(np.abs(X[:, guard]), axis=0)))]
-                chk.fail(("modulate", "energy_on_unused_subcarrier", "guard"), case,
-                         observed="bin %d: %g" % (kbad, float(np.max(np.abs(X[:, kbad])))),
-                         expected="0 (scale %g)" % sc)
-        # (1) round trip
-        d = np.asarray(o.demodulate(tx.copy()))
-        if d.shape != xpad.shape:
-            chk.fail(("demodulate", "output_length"), case, observed=d.shape, expected=xpad.shape)
-            return
-        if not numerics.close(d, xpad, kappa=1.0, c=C_RT):
-            bad = np.abs(d - xpad)
-            bad[~np.isfinite(bad)] = np.inf
-            i = int(np.argmax(bad))
-            chk.fail(("demodulate", "roundtrip_mismatch", "data" if i < n else "zero_padding"), case,
-                     observed="position %d: %r" % (i, complex(d[i])), expected=complex(xpad[i]))
+        roundtrip_relations(chk, case, o, (fft, cp, used), n, off, form)
+        if form == "c128":
+            aliasing_relations(chk, case, OFDM(fft, cp, used), (fft, cp, used), n, off)
 
 
 def run_rt_unit(chk, cfg, off):
     fft, cp, used = cfg
     for n in lengths(used):
-        check_roundtrip(chk, {"kind": "roundtrip", "fft": fft, "cp": cp, "used": used, "n": n,
-                              "phase_offset": off})
+        for form in FORMS:
+            check_roundtrip(chk, {"kind": "roundtrip", "fft": fft, "cp": cp, "used": used, "n": n,
+                                  "form": form, "phase_offset": off})
 
 
 # ----------------------------------------------------------------------
-# Part C
+# Part C relations
 # ----------------------------------------------------------------------
-def check_channel(chk, case):
+def new_channel(delays, powers, seed):
     from pyphysim.channels.fading import TdlChannel
     from pyphysim.channels.fading_generators import JakesSampleGenerator
+    jakes = JakesSampleGenerator(Fd=0.0, Ts=1.0, L=JAKES_L, RS=np.random.RandomState(int(seed)))
+    return TdlChannel(jakes, tap_powers_dB=np.array(powers, dtype=float),
+                      tap_delays=np.array(delays, dtype=float))
+
+
+def equalize_relations(chk, case, o, eq, ch, triple, n, off, delays, ctx=()):
+    """(5) on the given (possibly reused) OFDM object / equaliser / channel.
+    Returns the reported impulse-response object or None."""
+    fft, cp, used = triple
+    x = syms(n, off)
+    nsym = -(-n // used)
+    xpad = np.concatenate([x, np.zeros(nsym * used - n, dtype=complex)])
+    tx = np.asarray(o.modulate(x.copy()))
+    txc = tx.copy()
+    rx = np.asarray(ch.corrupt_data(tx))
+    if not same_content(tx, txc) or tx.shape != txc.shape:
+        chk.fail(ctx + ("tdl_channel", "mutates_input"), case, observed=tx[:6], expected=txc[:6])
+        tx = txc
+    ir = ch.get_last_impulse_response()
+    idx = np.asarray(ir.tap_indexes_sparse).astype(np.int64).ravel()
+    tv = np.asarray(ir.tap_values_sparse)
+    # premises the harness configured: static channel, memory <= cp
+    if idx.tolist() != [int(d) for d in delays] or tv.shape != (len(delays), tx.size):
+        chk.fail(ctx + ("premise", "reported_taps_differ_from_configured_profile"), case,
+                 observed=(idx.tolist(), tv.shape), expected=(list(delays), (len(delays), tx.size)))
+        return None
+    if not np.all(tv == tv[:, :1]) or not np.all(np.isfinite(tv)):
+        chk.fail(ctx + ("premise", "channel_not_static_with_Fd=0"), case, observed=tv[:, :3],
+                 expected="constant in time")
+        return None
+    mem = int(idx.max())
+    if mem > cp:
+        chk.count("skipped_memory_exceeds_cp")
+        return ir
+    taps = tv[:, 0]
+    ub = ref_used_bins(fft, used)
+    H = true_freq_response(idx, taps, fft, ub)
+    hmin, hmax = float(np.min(np.abs(H))), float(np.max(np.abs(H)))
+    if hmin < NULL_THR:
+        chk.count("excluded_spectral_null")
+        chk.outcome("equalize_result", "excluded_spectral_null")
+        return ir
+    if rx.ndim != 1 or rx.size < tx.size:
+        chk.fail(ctx + ("tdl_channel", "output_shorter_than_input"), case, observed=rx.shape,
+                 expected=">= %d samples" % tx.size)
+        return ir
+    d = np.asarray(o.demodulate(np.array(rx[:tx.size])))
+    dc = d.copy()
+    eqd = np.asarray(eq.equalize_data(d, ir))
+    chk.count("n_equalized_symbols", int(xpad.size))
+    if not same_content(d, dc):
+        chk.fail(ctx + ("equalize", "mutates_input_values"), case, observed=d[:6], expected=dc[:6])
+    if eqd.shape != xpad.shape:
+        chk.fail(ctx + ("equalize", "output_shape"), case, observed=eqd.shape, expected=xpad.shape)
+        return ir
+    kappa = max(1.0, hmax) / hmin
+    if numerics.close(eqd, xpad, kappa=kappa, c=C_EQ):
+        chk.outcome("equalize_result", "recovered")
+        return ir
+    chk.outcome("equalize_result", "not_recovered")
+    # diagnose WHAT is wrong (for the signature): the library's frequency response
+    # against the direct sums with / without the taps at delay >= fft
+    diag = "freq_response_correct"
+    try:
+        Hlib = np.asarray(ir.get_freq_response(fft))[:, 0]
+        allb = list(range(fft))
+        Ht = true_freq_response(idx, taps, fft, allb)
+        Hc = true_freq_response(idx, taps, fft, allb, drop_beyond=fft)
+        tol = 1e-9 * max(1.0, hmax)
+        if Hlib.shape == Ht.shape and np.max(np.abs(Hlib - Ht)) <= tol:
+            diag = "freq_response_correct"
+        elif Hlib.shape == Hc.shape and np.max(np.abs(Hlib - Hc)) <= tol:
+            diag = "get_freq_response_drops_taps_at_delay>=fft"
+        else:
+            diag = "freq_response_wrong"
+    except Exception as e:  # noqa
+        diag = "get_freq_response_raises_" + type(e).__name__
+    cond = "memory=fft=cp" if mem == fft else "memory<fft"
+    bad = np.abs(eqd - xpad)
+    bad[~np.isfinite(bad)] = np.inf
+    i = int(np.argmax(bad))
+    chk.fail(ctx + ("equalize", "symbols_not_recovered", diag, cond), case,
+             observed="position %d: %r (|err| %g, min|H| %.3g)" % (i, complex(eqd[i]), float(bad[i]), hmin),
+             expected=complex(xpad[i]),
+             msg="channel memory %d, cp %d, fft %d; reported taps at delays %s" % (mem, cp, fft, idx.tolist()))
+    return ir
+
+
+def equalize_aliasing(chk, case, o, eq, ir, triple, n, off, ctx=()):
+    """equalize_data called twice with the same data array changed in place in between"""
+    from pyphysim.modulators.ofdm import OFDM, OfdmOneTapEqualizer
+    fft, cp, used = triple
+    nsym = -(-n // used)
+    if ir.num_samples != nsym * (fft + cp):
+        return
+    d = syms(nsym * used, off)
+    e1 = np.asarray(eq.equalize_data(d, ir))
+    e1c = e1.copy()
+    d *= 1j
+    d[-1] -= 2.0
+    e2 = np.asarray(eq.equalize_data(d, ir))
+    want = np.asarray(OfdmOneTapEqualizer(OFDM(fft, cp, used)).equalize_data(d.copy(), ir))
+    if e2.shape != want.shape or not np.array_equal(e2, want):
+        chk.fail(ctx + ("equalize", "stale_result_after_inplace_change_of_argument"), case,
+                 observed=e2[:6], expected=want[:6])
+    if e1.shape != e1c.shape or not np.array_equal(e1, e1c):
+        chk.fail(ctx + ("equalize", "earlier_result_changed_by_later_call"), case,
+                 observed=e1[:6], expected=e1c[:6])
+
+
+def freq_response_relations(chk, case, ir, sizes, ctx=()):
+    """get_freq_response of ONE reported impulse-response object at several fft sizes in a row
+    (also after the dense tap view has been read) against the direct sum"""
+    idx = np.asarray(ir.tap_indexes_sparse).astype(np.int64).ravel()
+    tv = np.asarray(ir.tap_values_sparse)
+    for j, N in enumerate(sizes):
+        if j == 1:
+            _ = ir.tap_values       # populates the dense-view cache of the object
+        Hl = np.asarray(ir.get_freq_response(N))
+        chk.count("n_freq_responses")
+        if Hl.shape != (N, tv.shape[-1]):
+            chk.fail(ctx + ("get_freq_response", "shape"), dict(case, fft_sizes=list(sizes), failing_size=N),
+                     observed=Hl.shape, expected=(N, tv.shape[-1]))
+            return
+        Ht = true_freq_response(idx, tv[:, 0], N, list(range(N)))
+        if not numerics.close(Hl, np.repeat(Ht[:, None], Hl.shape[1], axis=1), kappa=float(len(idx)), c=C_RT):
+            chk.fail(ctx + ("get_freq_response", "differs_from_direct_sum"),
+                     dict(case, fft_sizes=list(sizes), failing_size=N),
+                     observed=Hl[:6, 0], expected=Ht[:6])
+            return
+
+
+def check_channel(chk, case):
     from pyphysim.modulators.ofdm import OFDM, OfdmOneTapEqualizer
     fft, cp, used, n, off = case["fft"], case["cp"], case["used"], case["n"], case["phase_offset"]
     delays, powers, seed = list(case["delays"]), list(case["powers_dB"]), int(case["rs_seed"])
     with chk.guard(("ofdm_tdl_equalize",), case):
         chk.count("eval_channel")
-        x = syms(n, off)
-        nsym = -(-n // used)
-        xpad = np.concatenate([x, np.zeros(nsym * used - n, dtype=complex)])
         if len(delays) > 1 or delays[0] > 0:
             chk.nontriv(("ch", fft, cp, used, tuple(delays)))
         chk.outcome("ntaps", len(delays))
@@ -347,83 +606,196 @@ def check_channel(chk, case):
         if cp in (0, fft):
             chk.outcome("cp_edge_channel_configs", (fft, cp))
         o = OFDM(fft, cp, used)
-        tx = np.asarray(o.modulate(x.copy()))
-        jakes = JakesSampleGenerator(Fd=0.0, Ts=1.0, L=JAKES_L, RS=np.random.RandomState(seed))
-        ch = TdlChannel(jakes, tap_powers_dB=np.array(powers, dtype=float),
-                        tap_delays=np.array(delays, dtype=float))
-        rx = np.asarray(ch.corrupt_data(tx.copy()))
-        ir = ch.get_last_impulse_response()
-        idx = np.asarray(ir.tap_indexes_sparse).astype(np.int64).ravel()
-        tv = np.asarray(ir.tap_values_sparse)
-        # premises the harness configured: static channel, memory <= cp
-        if idx.tolist() != [int(d) for d in delays] or tv.shape != (len(delays), tx.size):
-            chk.fail(("premise", "reported_taps_differ_from_configured_profile"), case,
-                     observed=(idx.tolist(), tv.shape), expected=(delays, (len(delays), tx.size)))
-            return
-        if not np.all(tv == tv[:, :1]) or not np.all(np.isfinite(tv)):
-            chk.fail(("premise", "channel_not_static_with_Fd=0"), case, observed=tv[:, :3],
-                     expected="constant in time")
-            return
-        mem = int(idx.max())
-        taps = tv[:, 0]
-        ub = ref_used_bins(fft, used)
-        H = true_freq_response(idx, taps, fft, ub)
-        hmin, hmax = float(np.min(np.abs(H))), float(np.max(np.abs(H)))
-        if hmin < NULL_THR:
-            chk.count("excluded_spectral_null")
-            chk.outcome("equalize_result", "excluded_spectral_null")
-            return
-        if rx.ndim != 1 or rx.size < tx.size:
-            chk.fail(("tdl_channel", "output_shorter_than_input"), case, observed=rx.shape,
-                     expected=">= %d samples" % tx.size)
-            return
-        d = np.asarray(o.demodulate(np.array(rx[:tx.size])))
-        eq = np.asarray(OfdmOneTapEqualizer(o).equalize_data(d, ir))
-        chk.count("n_equalized_symbols", int(xpad.size))
-        if eq.shape != xpad.shape:
-            chk.fail(("equalize", "output_shape"), case, observed=eq.shape, expected=xpad.shape)
-            return
-        kappa = max(1.0, hmax) / hmin
-        if numerics.close(eq, xpad, kappa=kappa, c=C_EQ):
-            chk.outcome("equalize_result", "recovered")
-            return
-        chk.outcome("equalize_result", "not_recovered")
-        # diagnose WHAT is wrong (for the signature): the library's frequency response
-        # against the direct sums with / without the taps at delay >= fft
-        diag = "freq_response_correct"
-        try:
-            Hlib = np.asarray(ir.get_freq_response(fft))[:, 0]
-            allb = list(range(fft))
-            Ht = true_freq_response(idx, taps, fft, allb)
-            Hc = true_freq_response(idx, taps, fft, allb, drop_beyond=fft)
-            tol = 1e-9 * max(1.0, hmax)
-            if Hlib.shape == Ht.shape and np.max(np.abs(Hlib - Ht)) <= tol:
-                diag = "freq_response_correct"
-            elif Hlib.shape == Hc.shape and np.max(np.abs(Hlib - Hc)) <= tol:
-                diag = "get_freq_response_drops_taps_at_delay>=fft"
-            else:
-                diag = "freq_response_wrong"
-        except Exception as e:  # noqa
-            diag = "get_freq_response_raises_" + type(e).__name__
-        cond = "memory=fft=cp" if mem == fft else "memory<fft"
-        bad = np.abs(eq - xpad)
-        bad[~np.isfinite(bad)] = np.inf
-        i = int(np.argmax(bad))
-        chk.fail(("equalize", "symbols_not_recovered", diag, cond), case,
-                 observed="position %d: %r (|err| %g, min|H| %.3g)" % (i, complex(eq[i]), float(bad[i]), hmin),
-                 expected=complex(xpad[i]),
-                 msg="channel memory %d, cp %d, fft %d; reported taps at delays %s" % (mem, cp, fft, idx.tolist()))
+        eq = OfdmOneTapEqualizer(o)
+        ch = new_channel(delays, powers, seed)
+        ir = equalize_relations(chk, case, o, eq, ch, (fft, cp, used), n, off, delays)
+        if ir is not None and case.get("aliasing"):
+            equalize_aliasing(chk, case, o, eq, ir, (fft, cp, used), n, off)
 
 
-def run_ch_unit(chk, cfg, ds, full, off, seed, which_lengths):
+def run_ch_unit(chk, cfg, ds, full, off, seed, p):
     fft, cp, used = cfg
     pw = (_POW_FULL if full else _POW_BOUNDARY)[len(ds)]
-    for p in pw:
-        for r in range(NREAL):
-            for n in channel_lengths(used, which_lengths):
-                check_channel(chk, {"kind": "channel", "fft": fft, "cp": cp, "used": used, "n": n,
-                                    "delays": list(ds), "powers_dB": list(p),
-                                    "rs_seed": rs_seed(seed, r), "phase_offset": off})
+    which = p["ch_lengths_full"] if full else p["ch_lengths_boundary"]
+    nreal = p["nreal_full"] if full else p["nreal_boundary"]
+    for ip, pt in enumerate(pw):
+        for r in range(nreal):
+            for n in channel_lengths(used, which):
+                case = {"kind": "channel", "fft": fft, "cp": cp, "used": used, "n": n,
+                        "delays": list(ds), "powers_dB": list(pt),
+                        "rs_seed": rs_seed(seed, r), "phase_offset": off}
+                if ip == 0 and r == 0:
+                    case["aliasing"] = True
+                check_channel(chk, case)
+
+
+# ----------------------------------------------------------------------
+# Part H: histories on one reused object
+# ----------------------------------------------------------------------
+class HState:
+    """one OFDM object, the equaliser bound to it at creation, one TdlChannel, the
+    impulse-response object reported by the last 'tx' event"""
+    def __init__(self):
+        self.o = None
+        self.eq = None
+        self.ch = None
+        self.ir = None
+        self.error = None
+
+
+def h_model(hist):
+    """reference interpreter: the parameters the object must have after `hist`"""
+    t = None
+    for ev in hist:
+        if ev[0] in ("new", "set"):
+            if ref_valid(ev[1], ev[2], ev[3]):
+                t = (ev[1], ev[2], ev[3])
+        elif ev[0] == "attr":
+            i = ("fft_size", "cp_size", "num_used_subcarriers").index(ev[1])
+            t = tuple(ev[2] if j == i else t[j] for j in range(3))
+    return t
+
+
+def h_enabled(triple):
+    evs = [("set",) + t for t in H_TRIPLES if t != triple]
+    evs.append(("set",) + H_INVALID)
+    for name, v in H_ATTRS:
+        i = ("fft_size", "cp_size", "num_used_subcarriers").index(name)
+        t = tuple(v if j == i else triple[j] for j in range(3))
+        if t != triple and ref_valid(*t):
+            evs.append(("attr", name, v))
+    evs.extend((r,) for r in H_READS)
+    return evs
+
+
+def h_build(hist, off, seed):
+    from pyphysim.modulators.ofdm import OFDM, OfdmOneTapEqualizer
+    st = HState()
+    done = []
+    try:
+        for ev in hist:
+            done.append(ev)
+            t = h_model(done)
+            if ev[0] == "new":
+                st.o = OFDM(ev[1], ev[2], ev[3])
+                st.eq = OfdmOneTapEqualizer(st.o)
+                st.ch = new_channel(H_CH_DELAYS, H_CH_POWERS, seed)
+            elif ev[0] == "set":
+                if ref_valid(ev[1], ev[2], ev[3]):
+                    st.o.set_parameters(ev[1], ev[2], ev[3])
+                else:
+                    try:
+                        st.o.set_parameters(ev[1], ev[2], ev[3])
+                        st.error = (ev, "invalid_accepted", None)
+                        return st
+                    except ValueError:
+                        pass
+            elif ev[0] == "attr":
+                setattr(st.o, ev[1], ev[2])
+            elif ev[0] == "idx":
+                st.o.get_used_subcarrier_indexes()
+            elif ev[0] == "mod":
+                st.o.modulate(syms(t[2] + 1, off))
+            elif ev[0] == "demod":
+                st.o.demodulate(st.o.modulate(syms(t[2] + 1, off)))
+            elif ev[0] == "tx":
+                st.ch.corrupt_data(st.o.modulate(syms(t[2] + 1, off)))
+                st.ir = st.ch.get_last_impulse_response()
+            else:
+                raise Broken("unknown history event %r" % (ev,))
+    except Broken:
+        raise
+    except Exception as e:  # noqa
+        st.error = (done[-1], "exception", e)
+    return st
+
+
+def h_invariant(chk, hist, st, off):
+    from pyphysim.modulators.ofdm import OFDM
+    case = {"kind": "history", "history": [list(e) for e in hist], "phase_offset": off,
+            "rs_seed": rs_seed(chk.seed, 0)}
+    ctx = ("history",)
+    chk.count("eval_history_states")
+    triple = h_model(hist)
+    if len(hist) > 1:
+        chk.nontriv(("hist",) + tuple(hist))
+    chk.outcome("history_params", triple)
+    chk.outcome("history_last_event", hist[-1][0])
+    if len(hist) > 1 and hist[-1][0] in ("set", "attr"):
+        prev = h_model(hist[:-1])
+        chk.outcome("history_reconfiguration", tuple(a == b for a, b in zip(prev, triple)))
+    if st.error is not None:
+        ev, what, exc = st.error
+        if what == "invalid_accepted":
+            chk.fail(ctx + ("set_parameters", "invalid_accepted"), case, observed="accepted",
+                     expected="ValueError")
+        else:
+            chk.fail(ctx + ("event_raises", ev[0], type(exc).__name__), case,
+                     observed="%s: %s" % (type(exc).__name__, exc), expected="no exception",
+                     msg="event %r of the history" % (ev,))
+        return
+    with chk.guard(ctx, case):
+        fft, cp, used = triple
+        o = st.o
+        got = (o.fft_size, o.cp_size, o.num_used_subcarriers)
+        if got != triple:
+            chk.fail(ctx + ("parameters_differ_from_last_successful_setting",), case,
+                     observed=got, expected=triple)
+            return
+        # differential against a fresh object (bit-exact: same arithmetic)
+        fresh = OFDM(fft, cp, used)
+        n = used + 1
+        x = syms(n, off)
+        a, b = np.asarray(o.get_used_subcarrier_indexes()), np.asarray(fresh.get_used_subcarrier_indexes())
+        if a.shape != b.shape or not np.array_equal(a, b):
+            chk.fail(ctx + ("get_used_subcarrier_indexes", "differs_from_fresh_object"), case,
+                     observed=a, expected=b)
+        ta, tb = np.asarray(o.modulate(x.copy())), np.asarray(fresh.modulate(x.copy()))
+        if ta.shape != tb.shape or not np.array_equal(ta, tb):
+            chk.fail(ctx + ("modulate", "differs_from_fresh_object"), case, observed=ta[:6], expected=tb[:6])
+        else:
+            da, db = np.asarray(o.demodulate(tb.copy())), np.asarray(fresh.demodulate(tb.copy()))
+            if da.shape != db.shape or not np.array_equal(da, db):
+                chk.fail(ctx + ("demodulate", "differs_from_fresh_object"), case, observed=da[:6], expected=db[:6])
+        # all Part-R relations on the live object for the current parameters
+        for nn in (used + 1, 2 * used + 3):
+            roundtrip_relations(chk, case, o, triple, nn, off, "c128", ctx)
+        aliasing_relations(chk, case, o, triple, n, off, ctx)
+        # the impulse-response object reported by an earlier transmission, at several sizes
+        if st.ir is not None:
+            freq_response_relations(chk, case, st.ir, (fft,) + H_FREQ_SIZES + (fft,), ctx)
+        # transmission through the reused channel, equalised by the equaliser bound at creation
+        ir = equalize_relations(chk, case, o, st.eq, st.ch, triple, n, off, H_CH_DELAYS, ctx)
+        if ir is not None:
+            freq_response_relations(chk, case, ir, (fft,) + H_FREQ_SIZES, ctx)
+            if max(H_CH_DELAYS) <= cp:
+                equalize_aliasing(chk, case, o, st.eq, ir, triple, n, off, ctx)
+
+
+def h_canon(hist, st):
+    if st.error is not None:
+        return ("error",) + tuple(hist)
+    # every history up to one event after creation is a state of its own; beyond that
+    # two histories merge only if the real objects are field-for-field identical
+    return (tuple(hist) if len(hist) <= 2 else None, bfs.digest((st.o, st.ch, st.ir), 12))
+
+
+def run_hist_unit(chk, init_index, off, depth):
+    seed = rs_seed(chk.seed, 0)
+    init = (("new",) + H_TRIPLES[init_index],)
+    b = bfs.BFS(chk,
+                build=lambda h: h_build(h, off, seed),
+                enabled=lambda h, st: [] if st.error is not None else h_enabled(h_model(h)),
+                invariant=lambda h, st: h_invariant(chk, h, st, off),
+                canon=h_canon, max_depth=depth, label="ofdm_reuse_%d" % init_index)
+    b.run([init])
+    chk.outcome("history_depth", b.depth_reached)
+
+
+def replay_history(case, chk):
+    hist = tuple(tuple(e) for e in case["history"])
+    st = h_build(hist, case["phase_offset"], int(case["rs_seed"]))
+    h_invariant(chk, hist, st, case["phase_offset"])
 
 
 # ----------------------------------------------------------------------
@@ -432,14 +804,15 @@ def run_unit(chk, u, off, p):
         run_par_unit(chk, u[1])
     elif u[0] == "rt":
         run_rt_unit(chk, u[1], off)
+    elif u[0] == "hist":
+        run_hist_unit(chk, u[2], off, p["hist_depth"])
     else:
         _, cfg, ds, full = u
-        run_ch_unit(chk, cfg, ds, full, off, chk.seed,
-                    p["ch_lengths_full"] if full else p["ch_lengths_boundary"])
+        run_ch_unit(chk, cfg, ds, full, off, chk.seed, p)
 
 
 def _is_prepass(u):
-    return u[0] != "par" and u[1][0] <= PREPASS_MAX_FFT
+    return u[0] in ("rt", "ch") and u[1][0] <= PREPASS_MAX_FFT
 
 
 def main(chk: Check):
@@ -455,15 +828,24 @@ def main(chk: Check):
     chk.assume("prefix == tail is compared with == per sample (0.0 and -0.0 count as equal)")
     chk.assume("for fft > F_full the tap-delay sets are all 1..3-subsets of the boundary delays "
                "{0,1,cp//2,cp-1,cp} and the power tuples a fixed list of 1/4/4, not the full product")
+    chk.assume("'inputs not modified' means the VALUES of the argument arrays; demodulate re-shapes the "
+               "caller's array object in place (shape only), which the property does not forbid")
+    chk.assume("histories: attribute assignments are enabled only when the resulting triple is valid; "
+               "histories merge (beyond depth 1) when OFDM object, channel and reported impulse response "
+               "have identical whole-object digests")
     chk.extra.update(tolerance_c_roundtrip=C_RT, tolerance_c_ref_dft_times_N=C_DFT,
                      tolerance_c_equalizer_times_cond=C_EQ, spectral_null_threshold=NULL_THR,
                      F_all=p["F_all"], F_full=p["F_full"], Fp=p["Fp"],
                      extra_configs=len(p["big"]), configs=len(configs(tier)),
-                     realisations_per_profile=NREAL,
+                     channel_configs=len(list(channel_configs(tier))),
+                     realisations_per_profile=[p["nreal_full"], p["nreal_boundary"]],
                      channel_lengths_full_alphabet=p["ch_lengths_full"],
                      channel_lengths_boundary_alphabet=p["ch_lengths_boundary"],
                      power_tuples_full=[len(_POW_FULL[k]) for k in (1, 2, 3)],
-                     power_tuples_boundary=[len(_POW_BOUNDARY[k]) for k in (1, 2, 3)])
+                     power_tuples_boundary=[len(_POW_BOUNDARY[k]) for k in (1, 2, 3)],
+                     input_forms=list(FORMS), history_depth=p["hist_depth"],
+                     history_triples=[list(t) for t in H_TRIPLES],
+                     history_events_per_state=len(h_enabled(H_TRIPLES[0])))
     # smallest configurations first, serially, so that the stored witness of every
     # signature is the smallest one
     for u in units(tier):
@@ -475,10 +857,13 @@ def main(chk: Check):
             run_unit(c, u, off, p)
 
     run_shards(chk, worker, common.ncores())
-    chk.sample({"kind": "roundtrip", "fft": 8, "cp": 3, "used": 6, "n": 7, "phase_offset": off})
+    chk.sample({"kind": "roundtrip", "fft": 8, "cp": 3, "used": 6, "n": 7, "form": "strided",
+                "phase_offset": off})
     chk.sample({"kind": "channel", "fft": 8, "cp": 3, "used": 6, "n": 7, "delays": [0, 3],
                 "powers_dB": [0.0, -3.0], "rs_seed": rs_seed(chk.seed, 0), "phase_offset": off})
     chk.sample({"kind": "params", "fft": 8, "cp": 9, "used": 4, "via": "ctor"})
+    chk.sample({"kind": "history", "history": [["new", 4, 1, 2], ["mod"], ["set", 8, 1, 2]],
+                "phase_offset": off, "rs_seed": rs_seed(chk.seed, 0)})
     chk.require_outcomes("padding_configs", 20)
     chk.require_outcomes("cp_edge_configs", 6)
     chk.require_outcomes("cp_edge_channel_configs", 6)
@@ -487,8 +872,11 @@ def main(chk: Check):
     chk.require_outcomes("ntaps", 3)
     chk.require_outcomes("guard_bins", 3)
     chk.require_outcomes("params", 2)
+    chk.require_outcomes("input_form", len(FORMS))
+    chk.require_outcomes("history_params", 12)
+    chk.require_outcomes("history_last_event", 6)
+    chk.require_outcomes("history_reconfiguration", 4)
     if "recovered" not in chk.outcomes.get("equalize_result", ()) and not chk.violations:
-        from vmc.report import Broken
         raise Broken("vacuous: no channel case reached the comparison of the equalised symbols")
 
 
@@ -500,5 +888,7 @@ def replay(case, chk: Check):
         check_roundtrip(chk, case)
     elif kind == "channel":
         check_channel(chk, case)
+    elif kind == "history":
+        replay_history(case, chk)
     else:
         raise ValueError("unknown case kind %r" % (kind,))
